@@ -46,7 +46,7 @@ package ircserver
 //@ pred msgTime(m *robust.Message) = ite(m.UnixNano == 0, time.Unix(0, m.Id.Id), time.Unix(0, m.UnixNano))
 // every ban carries its compiled pattern
 //@ pred bansOK(c *channel) = forall k int :: 0 <= k && k < len(c.bans) ==> c.bans[k].re != nil
-//@ pred wfLocks(i *IRCServer) = i.sessionsMu != nil && i.lastProcessedMu != nil && i.ConfigMu != nil && i.ServerPrefix != nil && toplevel(i.ServerPrefix) && allocated(i.ServerPrefix)
+//@ pred wfLocks(i *IRCServer) = i.sessionsMu != nil && i.lastProcessedMu != nil && i.ConfigMu != nil && i.ServerPrefix != nil && toplevel(i.ServerPrefix) && allocated(i.ServerPrefix) && len(i.ServerPrefix.Name) > 0
 //@ pred wfBase(i *IRCServer) = i != nil && wfLocks(i) && i.svsholds != nil && i.Config.Banned != nil
 // sessions created through the API (Reply == 0) carry the random session secret (>= 8 bytes are used as captcha challenge)
 //@ pred wfAuth(i *IRCServer) = forall id robust.Id :: id in i.sessions && id.Reply == 0 ==> len(i.sessions[id].auth) >= 8
@@ -54,7 +54,7 @@ package ircserver
 // a logged-in session has a nickname
 //@ pred wfLogin(i *IRCServer) = forall id robust.Id :: id in i.sessions && i.sessions[id].loggedIn ==> i.sessions[id].Nick != ""
 // C12 identity: the prefix under which a (non-services) session's lines are relayed carries its current nickname and user name
-//@ pred wfPrefix(i *IRCServer) = forall id robust.Id :: id in i.sessions && !i.sessions[id].Server ==> i.sessions[id].ircPrefix.Name == i.sessions[id].Nick && i.sessions[id].ircPrefix.User == i.sessions[id].Username
+//@ pred wfPrefix(i *IRCServer) = forall id robust.Id :: id in i.sessions ==> (!i.sessions[id].Server ==> i.sessions[id].ircPrefix.Name == i.sessions[id].Nick && i.sessions[id].ircPrefix.User == i.sessions[id].Username) && (i.sessions[id].Server ==> len(i.sessions[id].ircPrefix.Name) > 0) && (id.Reply != 0 ==> i.sessions[id].Nick != "")
 //@ pred wfAlive(i *IRCServer) = forall id robust.Id :: id in i.sessions ==> !i.sessions[id].deleted
 //@ pred wfMid(i *IRCServer) = wfBase(i) && wfSessions(i) && wfNicks(i) && wfChannels(i) && wfMember(i) && wfOwner(i)
 
@@ -65,8 +65,11 @@ package ircserver
 // ---------------------------------------------------------------------------
 // The send helpers (C12: who receives a message)
 
+// One IRC line (C15): a command, and a prefix that is either absent or names somebody.
+//@ pred lineOK(m *irc.Message) = len(m.Command) > 0 && (m.Prefix == nil || len(m.Prefix.Name) > 0)
 //@ func IRCServer.send
 //@   requires replyOK(reply) && msg != nil
+//@   requires line: lineOK(msg)
 //@   ensures ok: replyOK(reply) && result != nil && result.InterestingFor != nil && reply.lastmsg == msg
 //@   ensures last: len(reply.Messages) > 0 && result == reply.Messages[len(reply.Messages)-1]
 //@   ensures same: old(reply.lastmsg) == msg ==> len(reply.Messages) == old(len(reply.Messages)) && reply.replyid == old(reply.replyid) && result == old(reply.Messages[len(reply.Messages)-1])
@@ -79,6 +82,7 @@ package ircserver
 //@ pred hadBefore(r *Replyctx, msg *irc.Message, k uint64) = old(r.lastmsg) == msg && k in old(r.Messages[len(r.Messages)-1].InterestingFor)
 
 //@ func IRCServer.sendUser
+//@   requires line: lineOK(msg)
 //@   requires replyOK(reply) && msg != nil && user != nil
 //@   ensures ok: replyOK(reply) && result == msg && reply.lastmsg == msg && len(reply.Messages) > 0
 //@   ensures recipients: forall k uint64 :: k in lastIF(reply) <==> hadBefore(reply, msg, k) || k == user.Id.Id
@@ -88,6 +92,7 @@ package ircserver
 //@   modifies Replyctx.replyid[reply], Replyctx.Messages[reply], Replyctx.lastmsg[reply], maptype(map[uint64]bool)[ite(reply.lastmsg == msg, reply.Messages[len(reply.Messages)-1].InterestingFor, nil)]
 
 //@ func IRCServer.sendChannel
+//@   requires line: lineOK(msg)
 //@   requires i != nil && i.nicks != nil && c != nil && replyOK(reply) && msg != nil
 //@   requires members: forall n lcNick :: n in c.nicks ==> n in i.nicks && i.nicks[n] != nil
 //@   ensures ok: replyOK(reply) && result == msg && reply.lastmsg == msg && len(reply.Messages) > 0
@@ -102,6 +107,7 @@ package ircserver
 //@     invariant forall k uint64 :: k in robustmsg.InterestingFor <==> hadBefore(reply, msg, k) || (exists n lcNick :: seen(n) && i.nicks[n].Id.Id == k)
 
 //@ func IRCServer.sendChannelButOne
+//@   requires line: lineOK(msg)
 //@   requires i != nil && i.nicks != nil && c != nil && replyOK(reply) && msg != nil
 //@   requires members: forall n lcNick :: n in c.nicks ==> n in i.nicks && i.nicks[n] != nil
 //@   ensures ok: replyOK(reply) && result == msg && reply.lastmsg == msg && len(reply.Messages) > 0
@@ -116,6 +122,7 @@ package ircserver
 //@     invariant forall k uint64 :: k in robustmsg.InterestingFor <==> hadBefore(reply, msg, k) || (exists n lcNick :: seen(n) && i.nicks[n] != user && i.nicks[n].Id.Id == k)
 
 //@ func IRCServer.sendAllUsers
+//@   requires line: lineOK(msg)
 //@   requires i != nil && wfNicks(i) && replyOK(reply) && msg != nil
 //@   ensures ok: replyOK(reply) && result == msg && reply.lastmsg == msg && len(reply.Messages) > 0
 //@   ensures recipients: forall k uint64 :: k in lastIF(reply) <==> hadBefore(reply, msg, k) || (exists n lcNick :: n in i.nicks && i.nicks[n].Id.Id == k)
@@ -129,6 +136,7 @@ package ircserver
 //@     invariant forall k uint64 :: k in robustmsg.InterestingFor <==> hadBefore(reply, msg, k) || (exists n lcNick :: seen(n) && i.nicks[n].Id.Id == k)
 
 //@ func IRCServer.sendServices
+//@   requires line: lineOK(msg)
 //@   requires i != nil && replyOK(reply) && msg != nil
 //@   ensures ok: replyOK(reply) && result == msg && reply.lastmsg == msg && len(reply.Messages) > 0
 //@   ensures recipients: forall k uint64 :: k in lastIF(reply) <==> hadBefore(reply, msg, k) || (exists j int :: 0 <= j && j < len(i.serverSessions) && i.serverSessions[j] == k)
@@ -142,6 +150,7 @@ package ircserver
 
 // Everybody who shares a channel with user (channels user lists that still exist).
 //@ func IRCServer.sendCommonChannels
+//@   requires line: lineOK(msg)
 //@   requires i != nil && i.nicks != nil && i.channels != nil && user != nil && replyOK(reply) && msg != nil
 //@   requires chans: forall ch lcChan :: ch in i.channels ==> i.channels[ch] != nil && (forall n lcNick :: n in i.channels[ch].nicks ==> n in i.nicks && i.nicks[n] != nil)
 //@   ensures ok: replyOK(reply) && result == msg && reply.lastmsg == msg && len(reply.Messages) > 0
@@ -376,6 +385,7 @@ package ircserver
 // the pre-registration commands below, only for logged-in sessions.
 //@ func dispatch
 //@   requires api: s.Id.Reply == 0
+//@   requires command: len(msg.Command) > 0
 //@   requires alive: wfAlive(i)
 //@   opt prereg = NICK USER PASS QUIT SERVER
 
@@ -580,6 +590,7 @@ package ircserver
 // are exactly the clauses labelled conforming* below (they are assumptions, listed in the evidence).
 
 //@ func IRCServer.cmdServer
+//@   requires conforming-servername: len(msg.Params[0]) > 0
 //@   loop range i.nicks
 //@     invariant forall j int :: 0 <= j && j < len(nicks) ==> nicks[j] in i.nicks
 //@   loop range nicks
@@ -605,43 +616,45 @@ package ircserver
 //@   assume@call createSessionLocked#0 : conforming-fresh: !(id in i.sessions) && id.Reply != 0
 //@ func IRCServer.cmdServerJoin
 //@   requires conforming-params: len(msg.Params) >= 1
-//@   requires conforming-prefix: msg.Prefix != nil
+//@   requires conforming-prefix: msg.Prefix != nil && len(msg.Prefix.Name) > 0
 //@   loop range strings.Split(msg.Params[0], ",")
 //@     invariant msg.Prefix != nil
 //@ func IRCServer.cmdServerPart
 //@   requires conforming-params: len(msg.Params) >= 1
-//@   requires conforming-prefix: msg.Prefix != nil
+//@   requires conforming-prefix: msg.Prefix != nil && len(msg.Prefix.Name) > 0
 //@ func IRCServer.cmdServerMode
 //@   requires conforming-params: len(msg.Params) >= 1
-//@   requires conforming-prefix: msg.Prefix != nil
+//@   requires conforming-prefix: msg.Prefix != nil && len(msg.Prefix.Name) > 0
 //@   loop range modes
 //@     invariant forall k int :: 0 <= k && k < len(modes) ==> len(modes[k].Mode) >= 2
 //@     invariant c != nil && ChanToLower(channelname) in i.channels && c == i.channels[ChanToLower(channelname)]
 //@ func IRCServer.cmdServerKick
-//@   requires conforming-prefix: msg.Prefix != nil
+//@   requires conforming-prefix: msg.Prefix != nil && len(msg.Prefix.Name) > 0
 //@ func IRCServer.cmdServerInvite
-//@   requires conforming-prefix: msg.Prefix != nil
+//@   requires conforming-prefix: msg.Prefix != nil && len(msg.Prefix.Name) > 0
 //@ func IRCServer.cmdServerPrivmsg
-//@   requires conforming-prefix: msg.Prefix != nil
+//@   requires conforming-prefix: msg.Prefix != nil && len(msg.Prefix.Name) > 0
 //@ func IRCServer.cmdServerSvsjoin
-//@   requires conforming-prefix: msg.Prefix != nil
+//@   requires conforming-prefix: msg.Prefix != nil && len(msg.Prefix.Name) > 0
 //@   requires role: s.Server
 //@   requires alive: wfAlive(i)
 //@ func IRCServer.cmdServerSvspart
-//@   requires conforming-prefix: msg.Prefix != nil
+//@   requires conforming-prefix: msg.Prefix != nil && len(msg.Prefix.Name) > 0
 // The "unset the topic" branch tests len(msg.Params) == 2 but the command is registered with
 // MinParams 3: that branch (and its return) is dead code, not a vacuous proof.
 //@ func IRCServer.cmdServerTopic
-//@   requires conforming-prefix: msg.Prefix != nil
+//@   requires conforming-prefix: msg.Prefix != nil && len(msg.Prefix.Name) > 0
 //@   opt dead = return#1
 //@ func IRCServer.cmdServerKill
-//@   requires conforming-prefix: msg.Prefix != nil
+//@   requires conforming-prefix: msg.Prefix != nil && len(msg.Prefix.Name) > 0
 //@   requires role: s.Server
 //@   requires alive: wfAlive(i)
 
 // services QUIT: without prefix the link itself goes away together with all its pseudo-clients
 //@ func IRCServer.cmdServerQuit
 //@   requires role: s.Server
+// proof step: the key visited now was not visited before, so its Reply part is not yet in the list
+//@   assert@call append#0 : newkey: forall j int :: 0 <= j && j < len(pseudoClients) ==> pseudoClients[j] != id.Reply
 //@   requires alive: wfAlive(i)
 //@   requires api: s.Id.Reply == 0
 //@   loop range i.sessions
@@ -683,6 +696,7 @@ package ircserver
 
 // A fresh server satisfies the invariant.
 //@ func NewIRCServer
+//@   requires netname: networkname != ""
 //@   ensures wf: result != nil && wfAll(result)
 //@   ensures empty: forall x robust.Id :: !(x in result.sessions)
 
@@ -846,3 +860,34 @@ package ircserver
 //@   ensures same: a == b
 //@ func IRCServer.ProcessMessage
 //@   ensures replyids: result.msgid == old(msg.Id.Id)
+
+// ---------------------------------------------------------------------------
+// C15: every line handed to a send helper has a command and, if it has a
+// prefix, a non-empty one (lineOK is a precondition of the send helpers).
+// Client handlers that relay under the acting session's prefix rely on the
+// dispatch gate: the session is registered (so it has a nickname).
+//@ func IRCServer.cmdKill
+//@   requires role: s.loggedIn && !s.Server
+//@ func IRCServer.cmdMode
+//@   requires role: s.loggedIn && !s.Server
+//@   ensures notserver: !s.Server
+//@   loopinv notserver: !s.Server
+//@ func IRCServer.cmdTopic
+//@   ensures notserver: !old(s.Server) ==> !s.Server
+//@ func IRCServer.cmdNames
+//@   ensures notserver: !old(s.Server) ==> !s.Server
+//@   loopinv notserver: !old(s.Server) ==> !s.Server
+//@ func IRCServer.cmdPrivmsg
+//@   requires role: s.loggedIn && !s.Server
+//@   requires command: len(msg.Command) > 0
+//@ func IRCServer.cmdServerPrivmsg
+//@   requires command: len(msg.Command) > 0
+//@ func IRCServer.cmdServiceAlias
+//@   requires role: s.loggedIn && !s.Server
+//@ func IRCServer.cmdGline
+//@   requires role: s.loggedIn && !s.Server
+//@ func IRCServer.cmdJoin
+//@   requires role: s.loggedIn && !s.Server
+//@   loopinv role: !s.Server
+//@ func IRCServer.cmdUser
+//@   requires role: !s.Server
